@@ -10,7 +10,8 @@ Correspondence streams (real code vs Lean model, every case):
   tokens    Python's `tokenize` on str(e)                      vs  Print.expr e                         (i)
   ast       Python's `ast.parse(str(e), mode="eval")`           vs  PyParse.parse (Print.expr e)         (ii)
   reparsed  parse_y0(str(e))                                   vs  PyEval.parseY0 (Print.expr e)        (iii)
-  domain    (constant True)                                    vs  the theorems' hypothesis `Built e` decided by the model on the Python object
+  domain    (constant True)                                    vs  the theorems' hypotheses `wf e ∧ built e` decided by the model on the Python object
+  simple    the oracle's simple-division test on the object    vs  the model's `simple e`
 plus a token-string stream (kind "tokens"): Python's parser vs PyParse.parse on mutated printed texts.
 
 Oracle (from the property statement, real code only): parse_y0(str(e)) succeeds and returns an Expression; it has the
@@ -381,6 +382,7 @@ def run_python(case):
         out["reparsed"] = ["err"]
         fail = f"parse_y0({s!r}) raised {type(x).__name__}: {str(x)[:120]}"
     simple = simple_divisions(e)
+    out["simple"] = "true" if simple else "false"
     if fail is None:
         if p != e:
             why = EV.same_meaning(e, p, seed=case.get("seed", 0) + len(s))
@@ -460,8 +462,9 @@ def canon_model(case, rep):
         return ["err"] if rep[0] == "err" else ["ok", rep[1]]
     if len(rep) == 2 or rep[0] == "err":      # reply of (print eval …)
         return {"built": _res(rep, norm=True)}
-    _, built, toks, ast_, re_, dom = rep
-    return {"built": _res(built, norm=True), "domain": dom, "tokens": list(toks[1:]), "ast": _res(ast_), "reparsed": _res(re_)}
+    _, built, toks, ast_, re_, dom, simp = rep
+    return {"built": _res(built, norm=True), "domain": dom, "tokens": list(toks[1:]), "ast": _res(ast_),
+            "reparsed": _res(re_), "simple": simp}
 
 
 # ------------------------------------------------------------------------------------------ shrinking, keys
